@@ -6,6 +6,7 @@ import refs
 RUNNER = "stable"
 TRUSTED = [
     "Lean 4.33.0 kernel; axioms ⊆ {propext, Classical.choice, Quot.sound}",
+    "tools/rs2lean.py (Rust → Lean translator for the integer kernels) is trusted to transcribe the subset it accepts; it rejects anything else; its output is compiled by Lean and each equivalence proof was mutation-checked",
     "Lean specs (Spec/Poly1305, Blake2b, Sha512, Hmac, SipHash, Salsa20, ChaCha20) say what the RFCs say; validated against libsodium on the same corpus every run",
     "correspondence check: python generator/differ, Rust runner, Lean driver",
     "sha2 crate (SHA-512) is modelled by the Lean spec, not verified",
